@@ -207,22 +207,44 @@ impl Pool {
             inputs.push(gen::recipe(&mut r));
         }
         for i in 0..6u64 {
-            let mut r = Rng::new(mix2(0xB16B_16, i));
-            inputs.push(gen::recipe_large(&mut r));
+            for attempt in 0..20u64 {
+                let mut r = Rng::new(mix2(0xB16B_16 + attempt * 1000, i));
+                let t = gen::recipe_large(&mut r);
+                if has_output(&t) || attempt == 19 {
+                    inputs.push(t);
+                    break;
+                }
+            }
         }
         // one very long recipe (> 64 KiB of step text): size thresholds and time budgets. Kept
         // apart from the pool: it is expensive, so it is drawn rarely (1 input in 1 500)
-        let xl_input;
-        {
-            let mut r = Rng::new(0x00E1_7A11);
+        // (it must produce an output - one hard parser error anywhere and the analysis of the whole
+        // text is skipped; checked with the library, next seed otherwise)
+        let mut xl_input = None;
+        for attempt in 0..40u64 {
+            let mut r = Rng::new(0x00E1_7A11 + attempt);
             let mut xl = String::new();
             while xl.len() < 300_000 {
-                xl.push_str(&gen::recipe_large(&mut r));
+                let piece = gen::recipe_large(&mut r);
+                if has_output(&piece) {
+                    xl.push_str(&piece);
+                }
             }
-            xl_input = Some(xl);
+            if has_output(&xl) || attempt == 39 {
+                xl_input = Some(xl);
+                break;
+            }
         }
         Pool { inputs, xl: xl_input.unwrap_or_default(), xl_den: 1500 }
     }
+}
+
+/// does a parse with all extensions and the bundled units produce an output for this text?
+fn has_output(text: &str) -> bool {
+    thread_local! {
+        static P: cooklang::CooklangParser = cooklang::CooklangParser::new(cooklang::Extensions::all(), cooklang::Converter::bundled());
+    }
+    P.with(|p| std::panic::catch_unwind(std::panic::AssertUnwindSafe(|| p.parse(text).has_output())).unwrap_or(false))
 }
 
 pub const EXT_ALL: u32 = (1 << 1) | (1 << 3) | (1 << 5) | (1 << 6) | (1 << 7) | (1 << 9) | (1 << 10) | (1 << 11);
